@@ -5,7 +5,10 @@ import glob, json, os, re
 V = os.path.dirname(os.path.abspath(__file__))
 rem = json.load(open(os.path.join(V, "seeded/REMARKS.json")))
 rows = []
-for d in sorted(glob.glob(os.path.join(V, "seeded/C??-?"))):
+def _key(d):
+    b = os.path.basename(d)
+    return (b[:3], int(b[4:]))
+for d in sorted(glob.glob(os.path.join(V, "seeded/C??-*")), key=_key):
     m = json.load(open(os.path.join(d, "meta.json")))
     name = os.path.basename(d)
     s = " ".join(m["source_meta"]["summary"].split())[:150].replace("|", "/")
